@@ -497,6 +497,21 @@ def try_known(n):
             return {"k": "ret", "ty": "!", "sp": n.get("sp"), "e": inner, "from_try": True}
     if inner.get("k") == "def" and (inner.get("path") or "").endswith("::None"):
         return {"k": "ret", "ty": "!", "sp": n.get("sp"), "e": inner, "from_try": True}
+    if str(inner.get("ty", "")).startswith("std::option::Option<") and inner.get("k") in ("mcall", "call", "local", "field") \
+            and inner.get("callee") != "core::slice::<impl [T]>::get":
+        # `e?` on an Option  ==  `match e { Some(v) => v, None => return None }`
+        sp = n.get("sp")
+        vid = fresh_id()
+        vty = n.get("ty")
+        pb = {"k": "pbind", "name": "some'", "id": vid, "mode": "BindingMode(No, Not)", "ty": vty, "sp": sp}
+        cond = {"k": "letexpr", "ty": "bool", "sp": sp, "init": e,
+                "pat": {"k": "ptstruct", "path": "std::prelude::v1::Some", "ps": [pb], "sp": sp}}
+        none = {"k": "def", "ty": "std::option::Option<()>", "sp": sp, "dk": "Ctor(Variant, Const)", "path": "std::prelude::v1::None"}
+        return {"k": "if", "ty": vty, "sp": sp, "cond": cond, "from_option_try": True,
+                "then": {"k": "block", "sp": sp, "ty": vty, "stmts": [],
+                         "expr": {"k": "local", "id": vid, "name": "some'", "ty": vty, "sp": sp}},
+                "else": {"k": "block", "sp": sp, "ty": "!", "stmts": [{"k": "semi", "sp": sp, "ty": "()",
+                         "e": {"k": "ret", "ty": "!", "sp": sp, "e": none, "from_try": True}}], "expr": None}}
     if inner.get("k") == "mcall" and inner.get("callee") == "core::slice::<impl [T]>::get" and len(inner.get("args", [])) == 1 \
             and inner["args"][0].get("ty") == "usize" and _is_pure(inner["recv"]) and _is_pure(inner["args"][0]) \
             and str(inner.get("ty", "")).startswith("std::option::Option<&"):
@@ -667,13 +682,13 @@ def entry_match(n):
 
 # ------------------------------------------------------------------ let f = |..| body;  f(..)   (called once)
 
-_FRESH = [0]
+_SEQ = [0]
 
 
 def _renumber_bound(tree):
     """give the locals DECLARED inside `tree` fresh ids (captured outer locals keep theirs)"""
-    _FRESH[0] += 1
-    off = 500000000 + _FRESH[0] * 100000
+    _SEQ[0] += 1
+    off = 500000000 + _SEQ[0] * 100000
     bound = set()
     stack = [tree]
     nodes = []
@@ -778,8 +793,8 @@ def scalarise_struct_local(blk):
         names = [f["name"] for f in init.get("fields", [])]
         if len(fields_ok) != len(uses) or any(f["name"] not in names for f in fields_ok):
             return False
-        _FRESH[0] += 1
-        base = 700000000 + _FRESH[0] * 1000
+        _SEQ[0] += 1
+        base = 700000000 + _SEQ[0] * 1000
         ids = {nm: base + j for j, nm in enumerate(names)}
         lets = []
         for f in init["fields"]:
